@@ -73,6 +73,13 @@ def oracle(ctx, case, io):
                 roots.append(d)
                 if post["tag"].get(t) != (200, d):
                     ctx.violation("tag %s resolved to %s before the collection and to %s after" % (t, d[:19], post["tag"].get(t)), hist(tag=t), "C05:tag-lost")
+        # (names that are no registry tags - full references written by another tool - cannot be asked for by name: the listing
+        #  says whether they are there, the layout which manifest they name)
+        for t, d in (gg.get("exttags") or {}).items():
+            if t in (pre["tags"] or []) and pre["blob"].get(d) == 200 and t not in pre["tag"]:
+                roots.append(d)
+                if t not in (post["tags"] or []):
+                    ctx.violation("the name %r (written to index.json by another tool) was listed before the collection and is not listed after" % t, hist(tag=t), "C05:tag-lost")
         def orphan(d):
             """d was listed as a child by an index, which moved its index.json entry to the in-memory child list, and no
             such index survives: d is no retention root of its own (finding F35)"""
@@ -137,7 +144,33 @@ def oracle(ctx, case, io):
 
 
 def graph_json(w):
-    return {r: dict(man=g.man, bytes_len={d: len(b) for d, b in g.bytes.items()}) for r, g in w.g.items()}
+    return {r: dict(man=g.man, bytes_len={d: len(b) for d, b in g.bytes.items()}, exttags=getattr(g, "exttags", {})) for r, g in w.g.items()}
+
+
+EXT_NAMES = ["registry.example.org/team/app:1.0", "localhost:5000/x@y", "v1", "a b", "app:latest", None]
+
+
+def external_layout(w, rng, i):
+    """repository ext as an OCI layout on disk before the server starts; returns the files"""
+    import layouts
+    import c17
+    L = layouts.Layout("ext")
+    L.annotations = {c17.CONVERT: "true"}
+    g = w.g["ext"]
+    g.exttags = {}
+    names = rng.sample(EXT_NAMES, rng.randrange(2, 5))
+    for j, nm in enumerate(names):
+        cfg, lay = b'{"os":"ext%d"}' % j, b"ext-layer-%d-%d" % (i, j)
+        body, d = L.add_image(tag=nm, layers=(lay,), cfg=cfg, annotations={"ext": "%d-%d" % (i, j)})
+        for b in (cfg, lay, body):
+            g.bytes[dg("sha256", b)] = b
+            w.contents.add(b)
+        g.man[d] = dict(kind="image", refs=[dg("sha256", cfg), dg("sha256", lay)], subject=None, mt=MT_OCI_M)
+        if nm:
+            g.exttags[nm] = d
+    w.add(dict(kind="seed", repo="ext", impl=dict(op="sleep", secs=0),
+               model=sl("seed", sx("ext"), "true", sl(*[sl(sx(d), sx(lat(b))) for d, b in sorted(L.blobs.items())]), sl(*[c17.s_entry(e) for e in L.entries]))))
+    return L.files()
 
 
 def make_cases(ctx, first):
@@ -151,10 +184,15 @@ def make_cases(ctx, first):
         #  because a repository that holds nothing but freshly uploaded blobs looks empty to it)
         emptyrepo = i % 4 == 3
         conf = mkconf(store=("mem", "dir")[(i // len(pols)) % 2], emptyrepo=emptyrepo, **pol)
-        w = gcgen.GCWorld(rng, conf, (["a"] if i % 3 else ["a", "a/b"]) + (["fresh"] if emptyrepo else []))
+        # a repository that another tool wrote: its index.json names images by full references, which the layout format allows
+        ext = conf["store"] == "dir" and i % 3 != 2
+        w = gcgen.GCWorld(rng, conf, (["a"] if i % 3 else ["a", "a/b"]) + (["fresh"] if emptyrepo else []) + (["ext"] if ext else []))
         gcn = 0
+        seed = []
+        if ext:
+            seed = external_layout(w, rng, i)
         for repo in w.repos:
-            if repo != "fresh":
+            if repo not in ("fresh", "ext"):
                 w.build(repo)
         if emptyrepo:
             # a collection between the blob uploads and the first manifest push of a new repository
@@ -207,7 +245,12 @@ def make_cases(ctx, first):
                 w.g[repo].tags["late%d" % rnd] = dg("sha256", body)
             gcn += 1
             w.collect(repo, gcn)
-        cases.append(dict(id=first + i, conf=conf, steps=w.steps, contents=sorted(w.contents), graph=graph_json(w)))
+        if ext:
+            if rng.random() < 0.7:
+                w.age("ext", "all")
+            gcn += 1
+            w.collect("ext", gcn)
+        cases.append(dict(id=first + i, conf=conf, steps=w.steps, contents=sorted(w.contents), graph=graph_json(w), seed=seed))
     return cases
 
 
